@@ -31,6 +31,9 @@ Frame ==
           THEN (IF MemReplacedFileOnPath THEN {"memory-backend-replaces-a-file-on-the-path-by-a-directory"}
                 ELSE {"changed-something-other-than-its-destination"}) ELSE {})
     \* what the source held is still there, unchanged (a destination inside the source may add to it)
+    \* ... and a copy that is refused leaves it exactly as it was: nothing prepared inside it either
+    \cup (IF Ev.isCopy /\ Ev.got \notin {"ok", "blocked", "crash"} /\ ~Ev.panicked /\ ToSet(Ev.srcBefore) \subseteq ToSet(Ev.srcAfter) /\ ToSet(Ev.srcAfter) # ToSet(Ev.srcBefore)
+          THEN {"refused-copy-changed-its-source"} ELSE {})
     \cup (IF Ev.isCopy /\ ~(ToSet(Ev.srcBefore) \subseteq ToSet(Ev.srcAfter))
           THEN (IF MemReplacedFileOnPath /\ (ToSet(Ev.srcBefore) \ ToSet(Ev.srcAfter)) \subseteq ToSet(Ev.outsideFrame) THEN {}     \* that very file: reported under its own signature
                 ELSE {"copy-changed-its-source"}) ELSE {})
